@@ -587,8 +587,9 @@ func (hp *HTTPProxy) denyLocalhost() martian.RequestModifier {
 
 func (hp *HTTPProxy) denyDomains(r Matcher) martian.RequestModifier {
 	return martian.RequestModifierFunc(func(req *http.Request) error {
-		// Domain names are case-insensitive, the rules are written in lower case.
-		if r.Match(strings.ToLower(req.URL.Hostname())) {
+		// Domain names are case-insensitive, the rules are written in lower case;
+		// the transport dials the ASCII form of a non-ASCII name.
+		if h := strings.ToLower(req.URL.Hostname()); r.Match(h) || r.Match(asciiHost(h)) {
 			return ErrProxyDenied
 		}
 		return nil
@@ -622,18 +623,23 @@ func (hp *HTTPProxy) directLocalhost(fn ProxyFunc) ProxyFunc {
 	}
 }
 
-func (hp *HTTPProxy) isLocalhost(host string) bool {
-	// The rooted form of a name names the same host, so does an address with a zone.
-	host = strings.TrimSuffix(strings.ToLower(host), ".")
-	if i := strings.IndexByte(host, '%'); i >= 0 && strings.Contains(host, ":") {
-		host = host[:i]
-	}
-
-	// The transport maps a non-ASCII name to ASCII before it dials, judge the name that will be dialled.
+// asciiHost returns the host in lower case and, like the transport does before it dials, with a
+// non-ASCII name mapped to ASCII: the name the rules are written for.
+func asciiHost(host string) string {
+	host = strings.ToLower(host)
 	if strings.IndexFunc(host, func(r rune) bool { return r >= utf8.RuneSelf }) >= 0 {
 		if a, err := idna.Lookup.ToASCII(host); err == nil {
-			host = strings.TrimSuffix(a, ".")
+			host = a
 		}
+	}
+	return host
+}
+
+func (hp *HTTPProxy) isLocalhost(host string) bool {
+	// The rooted form of a name names the same host, so does an address with a zone.
+	host = strings.TrimSuffix(asciiHost(host), ".")
+	if i := strings.IndexByte(host, '%'); i >= 0 && strings.Contains(host, ":") {
+		host = host[:i]
 	}
 
 	if slices.Contains(hp.localhost, host) {
